@@ -4473,7 +4473,14 @@ class Pack:
                 self._data = self._data_load()
             except FileNotFoundError as exc:
                 raise PackFileDisappeared(self) from exc
-            self.check_length_and_checksum()
+            try:
+                self.check_length_and_checksum()
+            except BaseException:
+                # Do not keep a data file that does not belong to the index:
+                # the next access would skip this check and read objects at
+                # the offsets of another pack.
+                self._data = None
+                raise
         return self._data
 
     @property
